@@ -53,6 +53,9 @@ var c10Classes = []struct {
 	{"version-match", "version: 1.1.9\nparameters: {p: 1}\n", func(sut.Flags) bool { return true }},
 	{"format-error", "parameters:\n  a: '%env(\")%'\n  b: '%env(1 2)%'\n", func(f sut.Flags) bool { return f.Stub /* the stub never emits parameter code */ }},
 	{"two-patterns", "parameters: {p: 1}\n", func(sut.Flags) bool { return false }},
+	{"two-patterns-dot-slash", "parameters: {p: 1}\n", func(sut.Flags) bool { return false }},
+	{"two-patterns-dotdot", "parameters: {p: 1}\n", func(sut.Flags) bool { return false }},
+	{"two-patterns-double-slash", "parameters: {p: 1}\n", func(sut.Flags) bool { return false }},
 	{"nothing-processed", "", func(sut.Flags) bool { return false }},
 }
 
@@ -78,8 +81,16 @@ func c10Eval(t tb, c c10Cell) {
 		_ = os.WriteFile(filepath.Join(dir, "second.yaml"), []byte(c.YAML2), 0o644)
 		pats = append(pats, "second.yaml")
 	}
-	if c.Class == "two-patterns" {
+	switch c.Class {
+	case "two-patterns":
 		pats = append(pats, "ma*.yaml")
+	case "two-patterns-dot-slash": // the same file under two spellings: equal cleaned paths
+		pats = append(pats, "./main.yaml")
+	case "two-patterns-dotdot":
+		_ = os.MkdirAll(filepath.Join(dir, "sub"), 0o755)
+		pats = append([]string{"sub/../main.yaml"}, pats...)
+	case "two-patterns-double-slash":
+		pats = []string{".//main.yaml", "*.yaml"}
 	}
 	faultFatal := false
 	switch c.Fault {
